@@ -102,7 +102,7 @@ class PluginManager:
             plugin:      The plugin object.
             prioritize:  If `True`, the plugin will be added to the beginning of list.
         """
-        name_lower = name.lower()
+        name_lower = name.casefold()
         if name_lower in self._plugins[plugin_type]:
             msg = f"Duplicate plugin name: {name_lower}"
             raise ConfigError(msg)
@@ -131,7 +131,7 @@ class PluginManager:
         """
         split_method = method.split("/", maxsplit=1)
         if len(split_method) > 1:
-            plugin = self._plugins[plugin_type].get(split_method[0].lower())
+            plugin = self._plugins[plugin_type].get(split_method[0].casefold())
             if plugin is not None and plugin.is_supported(split_method[1]):
                 return plugin
         else:
